@@ -177,3 +177,39 @@ Proof.
   do 3 eexists. split; [vm_compute; reflexivity|]. split; [vm_compute; reflexivity|].
   split; [vm_compute; reflexivity|]. split; [vm_compute; reflexivity|]. vm_compute. discriminate.
 Qed.
+
+(** (d) all_classes mode (no target classes), threshold <= 1, fewer than 2^53
+    triples: the hypothesis of (c) always holds -- every class of the profile
+    has an instance and every instance has its class among the values of the
+    instantiation property, so each shape keeps that constraint at frequency
+    100 % -- hence no condition on remove_empty_shapes *)
+From Shexer Require Import Proofs.Bin64Round Proofs.FreqLaws.
+
+Theorem C14_no_empty_shape_all_classes : forall c thr g ns l,
+  r_targets c = None -> wf_frac thr -> fle BAlg thr (fone BAlg) = true ->
+  (N.of_nat (List.length g) < 2 ^ 53)%N ->
+  run_raw BAlg c thr g = inl (ns, l) -> Forall (fun sh => sh_stmts sh <> []) l.
+Proof.
+  intros c thr g ns l Hn Hw Hle Hg.
+  exact (run_raw_nonempty BAlg okN53 wf_frac BAlg_laws c thr g ns l Hn Hw Hle (okN53_of_graph g Hg)).
+Qed.
+Print Assumptions C14_no_empty_shape_all_classes.
+
+Theorem C14_run_direct_unchanged_all_classes : forall c thr g ns st,
+  r_targets c = None -> wf_frac thr -> fle BAlg thr (fone BAlg) = true ->
+  (N.of_nat (List.length g) < 2 ^ 53)%N ->
+  run_shapes BAlg (rwith_inverse true c) thr g = inl (ns, st) ->
+  exists sf, run_shapes BAlg (rwith_inverse false c) thr g = inl (ns, sf) /\
+             Forall2 (fun sh_t sh_f =>
+               sh_name sh_t = sh_name sh_f /\ sh_class sh_t = sh_class sh_f /\ sh_n sh_t = sh_n sh_f /\
+               filter is_direct (sh_stmts sh_t) = sh_stmts sh_f) st sf.
+Proof. exact run_direct_unchanged_all_classes. Qed.
+Print Assumptions C14_run_direct_unchanged_all_classes.
+
+Example C14_all_classes_nonvacuous :
+  r_targets base_rcfg = None /\ r_remove_empty base_rcfg = true /\ wf_frac thr0 /\
+  fle BAlg thr0 (fone BAlg) = true /\ (N.of_nat (List.length g_reftie_1) < 2 ^ 53)%N.
+Proof.
+  split; [reflexivity|]. split; [reflexivity|]. split; [vm_compute; split; [discriminate | reflexivity]|].
+  split; vm_compute; reflexivity.
+Qed.
